@@ -88,9 +88,12 @@ def fnJ (f : Function) : Json :=
        ("args", Json.arr (f.args.map fun a => Json.arr #[jstr a.name, jstr a.type]).toArray)]
 
 def errJ : BuildErr → Json
-  | .caseConflict _ => obj [("error", jstr "caseConflict")]
-  | .multipleDefs _ _ => obj [("error", jstr "multipleDefs")]
-  | .aliasDup _ _ => obj [("error", jstr "aliasDup")]
+  | .caseConflict groups => obj [("error", jstr "caseConflict"),
+      ("named", Json.arr ((sortBy id (groups.map fun g => ", ".intercalate (sortBy id g))).map jstr).toArray)]
+  | .multipleDefs all => obj [("error", jstr "multipleDefs"),
+      ("named", Json.arr (all.map fun (n, ids) => jstr (n ++ ": " ++ ", ".intercalate ids)).toArray)]
+  | .aliasDup a ids det => obj [("error", jstr "aliasDup"),
+      ("named", if det then Json.arr #[jstr (a ++ ": " ++ ", ".intercalate (sortBy id ids))] else jstr "<any>")]
   | .importNotFound p => obj [("error", jstr s!"importNotFound {p}")]
 
 def infoJ (i : PkgInfo) : Json :=
